@@ -816,7 +816,7 @@ def run_one(seed, index, do_shrink):
 def plan(mode, tier):
   if tier == "thorough":
     return {"runs": 200000, "budget_s": 1500, "chunk": 40, "cap_s": 3000}
-  return {"runs": 2400, "budget_s": 70, "chunk": 6, "cap_s": 1500,
+  return {"runs": 2400, "budget_s": 100, "chunk": 6, "cap_s": 1500,
           "chunks_per_worker": 1}
 
 
